@@ -52,8 +52,12 @@ func newKscript() *kscript {
 	return b
 }
 
-func (b *kscript) init(objs ...kruntime.Object) { b.initial = append(b.initial, objs...) }
-func (b *kscript) add(ops ...op)                { b.cur = append(b.cur, ops...) }
+func (b *kscript) init(objs ...kruntime.Object) {
+	for _, o := range objs {
+		b.initial = append(b.initial, o.DeepCopyObject()) // the script may go on changing the object
+	}
+}
+func (b *kscript) add(ops ...op) { b.cur = append(b.cur, ops...) }
 func (b *kscript) flushUnsettled() {
 	if b.noCheck == nil {
 		b.noCheck = map[int]bool{}
@@ -368,7 +372,8 @@ var kProbes = []krepro{
 		svc := b.svc("ns1", "e", false, "10.96.1.1", lbl("app", "we-a"), nil, sport("http", 80, 8080))
 		p0 := b.pod("ns1", "p0", lbl("app", "we-a", "version", "v1"), "sa-a", "10.40.0.1", true)
 		p1 := b.pod("ns1", "p1", lbl("app", "we-a", "version", "v1"), "sa-a", "10.40.0.2", true)
-		b.init(svc, p0, p1, b.slice(svc, 0, kep{p0, true, true, false}, kep{p1, true, true, false}))
+		// (copies: the script goes on changing p0 and p1)
+		b.init(svc, p0.DeepCopy(), p1.DeepCopy(), b.slice(svc, 0, kep{p0, true, true, false}, kep{p1, true, true, false}))
 		b.add(b.cfg("create", gvk.DestinationRule, "ns1", "dr-0", &networking.DestinationRule{Host: "e.ns1.svc.cluster.local",
 			Subsets: []*networking.Subset{{Name: "v1", Labels: lbl("version", "v1")}, {Name: "v2", Labels: lbl("version", "v2")}}}))
 		b.flush()
